@@ -91,6 +91,17 @@ async fn child_async(seed: u64, n: u64) -> std::result::Result<Value, String> {
         pb.send(fb).await.map_err(|e| format!("hostile publish: {e}"))?;
         *stats.entry("hostile_frames_to_subscribers").or_insert(0) += 2;
     }
+    // a long run of well-formed but *empty* batches (count = 0), delivered back to back: the subscriber has to
+    // work through them without unbounded recursion (stack overflow = abort)
+    {
+        let empty = selium_protocol::utils::encode_message_batch(vec![]);
+        let n_empty = 150_000u64;
+        for _ in 0..n_empty {
+            pb.feed(Frame::BatchMessage(empty.clone())).await.map_err(|e| format!("empty batch publish: {e}"))?;
+        }
+        pb.flush().await.map_err(|e| format!("flush: {e}"))?;
+        *stats.entry("empty_batches_to_subscriber").or_insert(0) += n_empty;
+    }
     // the end markers, correctly encoded
     let (zc, _) = compression_pair("zstd");
     use selium::std::traits::codec::MessageEncoder;
@@ -236,7 +247,15 @@ pub fn run(rep: &mut StageReport, tier: &str, seed: u64, exe: &str) {
                 },
                 refused.clone().map(|r| format!("({})", r)).unwrap_or_default()
             );
-            let sig = if refused.is_some() { "C06/l3/consumer-allocation-abort" } else { "C06/l3/consumer-abort" };
+            let overflow = stderr.contains("has overflowed its stack");
+            let detail = if overflow { format!("{} — stack overflow: {}", detail, stderr.lines().find(|l| l.contains("overflowed")).unwrap_or("")) } else { detail };
+            let sig = if refused.is_some() {
+                "C06/l3/consumer-allocation-abort"
+            } else if overflow {
+                "C06/l3/consumer-stack-overflow"
+            } else {
+                "C06/l3/consumer-abort"
+            };
             let replay = write_replay("C06", "l3-abort", seed, json!({"property": "C06", "detail": detail, "stderr": hex_trunc(stderr.as_bytes(), 0)}));
             rep.violation(Violation { signature: sig.into(), detail, replay });
         }
